@@ -12,7 +12,7 @@ ASSUMPTIONS = ['Position objects are built in place (squares[], whiteMove, castl
                'getBookMove: at most 4 book entries for the position and at most 6 legal moves (stub bounds); polyglot weights 0..65535; built-in counts 1..306 (the built-in book has 306 lines)',
                'UciParams::bookFile is a StringParam constructed as in parameters.cpp:47 whose value is "" (built-in book) or a short non-empty string (polyglot file); std::string copy/empty/c_str/destructor are modelled for strings inside the small-string buffer',
                'getBookEntries: file access (std::fstream constructor/seekg/tellg/read/operator!/destructor) is a stub: tellg returns any length in the stated range (-1 = missing file), every read returns arbitrary bytes or fails; at most 3 consecutive entries with the wanted key are collected (scan-loop bound)',
-               'int overflow limit of the engine code (reported, outside the claim): for book files of 2^31+16 bytes or more (>= 134217729 entries) "S64 offs = entNo * entSize" (book.cpp:117) overflows int; "(lo + hi) / 2" can overflow for more than 2^30 entries; "int numEntries = fileLen / 16" truncates from 32 GiB. With > 32768 entries of weight 65535 under one key the int weight sum in getBookMove overflows']
+               'limits of the engine code beyond the claim: "(lo + hi) / 2" can overflow for more than 2^30 entries (16 GiB books); "int numEntries = fileLen / 16" truncates from 32 GiB. With > 32768 entries of weight 65535 under one key the int weight sum in getBookMove overflows']
 
 GBE = '_ZNK4Book14getBookEntriesERK8PositionRSt6vectorINS_9BookEntryESaIS4_EE'
 GETSTR = '_ZNK10Parameters11StringParam12getStringParB5cxx11Ev'   # reached through the vtable only: emitted as an extra root
@@ -83,10 +83,15 @@ def build(tier):
            unwind=17, unwindset='%s.0:5,%s.2:8,_ZL8probePosR8Position.0:66' % (GBE, GBE), core=False, backend='cadical',
            functions=['Book::getBookEntries (book.cpp:106-160)', 'PolyglotBook::deSerialize', 'PolyglotBook::getMove', 'std::vector<BookEntry>::push_back'],
            bounds='<= 6 entries with arbitrary sorted keys (duplicates allowed), arbitrary moves/weights, 0..15 trailing bytes, any wanted key', stubs=SEARCH_STUBS),
-        Ob('O4c-search-walk', us, 'h_search_walk', 'largest files: with every probe comparing the same way (walk to the last or to the first entry - the path with the largest entry numbers) all offsets entNo*16 fit an int, reads stay inside the file, the search ends after <= 28 probes at the top/bottom',
-           unwind=17, unwindset='%s.0:30,%s.2:5,_ZL8probePosR8Position.0:66' % (GBE, GBE), core=False, backend='cadical',
+        Ob('O4c-search-walk', us, 'h_search_walk', 'largest files below 2 GiB: with every probe comparing the same way (walk to the last or to the first entry - the path with the largest entry numbers) reads stay inside the file, no arithmetic overflow, the search ends after <= 28 probes at the top/bottom',
+           unwind=17, unwindset='%s.0:30,%s.2:5,_ZL8probePosR8Position.0:66' % (GBE, GBE), core=False, backend='cadical', param=0,
            functions=['Book::getBookEntries (book.cpp:106-160) incl. the readEntry lambda'],
-           bounds='file length 2^31-1024 .. 2^31+15 bytes (numEntries 2^27-64 .. 2^27); LIMIT: at 2^31+16 bytes (entNo = 2^27) CBMC reports signed overflow of entNo*entSize in the readEntry lambda (book.cpp:117)', stubs=SEARCH_STUBS,
+           bounds='file length 2^31-1024 .. 2^31+15 bytes (numEntries 2^27-64 .. 2^27)', stubs=SEARCH_STUBS,
            assumptions=['monotone comparison outcomes during the search (all 2^28 outcome sequences at this size are beyond the SAT back end)']),
+        Ob('O4d-search-walk-huge', us, 'h_search_walk', 'book files of 2 GiB .. 16 GiB: entry offsets do not overflow (this obligation failed before the repository fix recorded in known_findings.txt: entNo*entSize was computed in int), reads stay inside the file, <= 31 probes',
+           unwind=17, unwindset='%s.0:34,%s.2:5,_ZL8probePosR8Position.0:66' % (GBE, GBE), core=False, backend='kissat', param=1, tiers=('thorough',), timeout=5400, mem_gb=16,
+           functions=['Book::getBookEntries (book.cpp:106-160) incl. the readEntry lambda'],
+           bounds='file length 2^31+16 .. 2^34+15 bytes (numEntries up to 2^30; beyond that (lo+hi)/2 and int numEntries are the next limits)', stubs=SEARCH_STUBS,
+           assumptions=['monotone comparison outcomes during the search']),
     ]
     return [up, ug, ugb, us], obs
